@@ -244,6 +244,17 @@ Theorem C18_interference_deletes_in_namespace : forall e clk fs o s0 ev,
 Proof. exact cleani_deletes_in_namespace. Qed.
 Print Assumptions C18_interference_deletes_in_namespace.
 
+(** and at the level of the storage: a key outside ocsp/ and certificates/ (account data, locks,
+    anything else) other than last_clean.json, whose own node no other actor changes, has after
+    the cleaning the node it had before -- whatever the other actors do to other keys, at whatever
+    moments, and whatever the content, faults, cancellation, clock *)
+Theorem C18_interference_other_keys_untouched : forall e clk fs o s0 k,
+  has_prefix ocsp_pfx k = false -> has_prefix certs_pfx k = false -> k <> spec_last_clean ->
+  (forall i f, In (i, f) fs -> touches k f = false) ->
+  lookup (sto (snd (cleani e fs o clk s0))) k = lookup s0 k.
+Proof. intros e clk fs o s0 k H1 H2 H3 H4. exact (cleani_frame e clk fs o s0 k H1 H2 H3 H4). Qed.
+Print Assumptions C18_interference_other_keys_untouched.
+
 (** without foreign operations the interfered cleaning is the model *)
 Theorem C18_no_interference_is_model : forall e o clk s0, cleani e [] o clk s0 = clean e o clk s0.
 Proof. exact cleani_nil. Qed.
@@ -491,6 +502,13 @@ Example ex_foreign_writer_seen :
   file (sto (snd (cleani ex_env [(8%nat, FPut ex_renewed (File 77 (crt (T + 90 * day))))] ex_opts0 (at_ T) ex_fs_store))) ex_renewed
   = Some (77, crt (T + 90 * day)).
 Proof. vm_compute. reflexivity. Qed.
+(** hypotheses of C18_interference_other_keys_untouched for the account key in the refuting run *)
+Example ex_frame_hyps :
+  let k := s2k "acme/ca/users/u/u.key" in
+  has_prefix ocsp_pfx k = false /\ has_prefix certs_pfx k = false /\ k <> spec_last_clean /\
+  touches k (FPut ex_renewed (File 77 (crt (T + 90 * day)))) = false /\
+  lookup ex_fs_store k = Some (File 13 plain).
+Proof. vm_compute. repeat split; try reflexivity. discriminate. Qed.
 Example ex_foreign_writer_calls :
   map (fun ev => (opk_code (ev_kind ev), ev_ok ev))
       (rev (lg (snd (cleani ex_env [(10%nat, FPut ex_renewed (File 77 (crt (T + 90 * day))))] ex_opts0 (at_ T) ex_fs_store))))
